@@ -10,7 +10,9 @@
 #include "galois/Galois.h"
 #include "galois/Reduction.h"
 
+#include <cmath>
 #include <limits>
+#include <set>
 #include <memory>
 #include <numeric>
 
